@@ -29,12 +29,14 @@ import (
 // ---- job / result exchanged between the supervising parent and the child ----
 
 type c35Job struct {
-	Kind    string   `json:"kind"` // meta_ascii | meta_unicode | hostile | noise
+	Kind    string   `json:"kind"` // meta_ascii | meta_unicode | meta_embed | embed_punct | hostile | noise | embed_noise
 	Sig     string   `json:"sig"`
 	Texts   [][]byte `json:"texts"` // Texts[0] is the base; for meta_* the rest are keyword-case variants of it
 	Sites   []string `json:"sites,omitempty"`
 	Longer  int      `json:"longer,omitempty"`
 	Shorter int      `json:"shorter,omitempty"`
+	EndKw   string   `json:"end_kw,omitempty"` // meta_embed: keyword spelled by the suffix of the statement's last identifier
+	Feats   []string `json:"feats,omitempty"`
 }
 
 type c35Finding struct {
@@ -322,15 +324,21 @@ func TestVerifC35Child(t *testing.T) {
 	w.Flush()
 }
 
-func c35Jobs(r *verifkit.Run, rs gen.RuneSet) []c35Job {
+func c35Jobs(t *testing.T, r *verifkit.Run, rs gen.RuneSet) []c35Job {
 	n := r.N(4000, 80000)
-	jobs := make([]c35Job, 0, n)
+	jobs := make([]c35Job, 0, n+n/2)
+	checkKW := func(q gen.Q) {
+		if m := gen.CheckKeywords(q); len(m) > 0 {
+			t.Fatalf("generator keyword list is incomplete: %q (statement %q)", m, q.String())
+		}
+	}
 	idOrStr := map[int]bool{gen.ID: true, gen.STR: true}
 	for i := 0; i < n; i++ {
 		rng := r.Rand(i)
 		switch i % 4 {
 		case 0:
 			q := gen.Gen(rng)
+			checkKW(q)
 			j := c35Job{Kind: "meta_ascii", Sig: q.Sig(), Texts: [][]byte{[]byte(q.String())}}
 			for k := 0; k < 3; k++ {
 				j.Texts = append(j.Texts, []byte(q.FlipCase(rng).String()))
@@ -352,6 +360,27 @@ func c35Jobs(r *verifkit.Run, rs gen.RuneSet) []c35Job {
 			jobs = append(jobs, c35Job{Kind: "noise", Sig: how, Texts: [][]byte{[]byte(s)}})
 		}
 	}
+	// identifiers that contain every keyword of the generator's list as prefix / suffix / infix, at every
+	// identifier site and at the very end of statements and clauses (PRNG indices above the first family's)
+	for i := 0; i < n/4; i++ {
+		rng := r.Rand(n + i)
+		q := gen.GenEmbed(rng)
+		j := c35Job{Kind: "meta_embed", Sig: q.Sig(), Texts: [][]byte{[]byte(q.String())}, EndKw: q.EndKw, Feats: q.Feats}
+		if q.Punct {
+			// a name like from-x or x.last contains the keyword as a whole word: which tokens are keywords is then
+			// read differently by the parser than by the generator, so the case variants are only watched for crashes
+			j.Kind = "embed_punct"
+			j.Feats = append(j.Feats, "kwid_punct")
+		}
+		for k := 0; k < 3; k++ {
+			j.Texts = append(j.Texts, []byte(q.FlipCase(rng).String()))
+		}
+		jobs = append(jobs, j)
+	}
+	for i := 0; i < n/8; i++ {
+		s, how := gen.EmbedNoise(r.Rand(2*n + i))
+		jobs = append(jobs, c35Job{Kind: "embed_noise", Sig: how, Texts: [][]byte{[]byte(s)}})
+	}
 	// the probe of DESIGN.md §5 and its neighbours are always part of the list
 	for _, s := range []string{"select ȺȺȺȺȺȺȺȺȺȺ from t", "select Ⱥ from t", "select * from t group by ȺȺȺȺȺȺȺȺȺȺȺȺ", "select * from t order by ȺȺȺȺȺȺȺȺȺȺȺȺ",
 		"select * from t join u on ȺȺȺȺȺȺȺȺȺȺȺȺ", "select İİİİİİİİİİ from t", "select KKKK from t group by K", "select \xff\xff\xff\xff from t", "explain select ȺȺȺȺȺȺȺȺȺȺ from t"} {
@@ -362,7 +391,7 @@ func c35Jobs(r *verifkit.Run, rs gen.RuneSet) []c35Job {
 
 func TestVerifC35Parse(t *testing.T) {
 	r := verifkit.Start(t, "C35", "parse")
-	defer r.Finish("crash box (child process, index logged before each call) over sql.Parse: (1) grammar-generated statements of every kind/clause, (2) the same with runes whose lower-case form has a different UTF-8 length (both directions, set computed from the unicode tables) placed before/inside/after/instead of keywords, identifiers and literals, (3) noise (bytes, token soup, truncations, invalid UTF-8, repeated clause keywords). Violation = Parse panics or the process dies. Metamorphic: 3 random ASCII-case variants of the keyword tokens of each generated statement (ASCII, and with non-ASCII identifiers/literals) must give the same error status and, when valid, a Query equal field by field (SelectColumn.Raw, the echoed input text, compared ASCII-case-insensitively). non-trivial = a statement that reached the select/explain/show/describe code with a keyword-case variant that differs from the base, or a hostile/noise text that got past statement dispatch",
+	defer r.Finish("crash box (child process, index logged before each call) over sql.Parse: (1) grammar-generated statements of every kind/clause, (2) the same with runes whose lower-case form has a different UTF-8 length (both directions, set computed from the unicode tables) placed before/inside/after/instead of keywords, identifiers and literals, (3) noise (bytes, token soup, truncations, invalid UTF-8, repeated clause keywords), (4) grammar-generated statements whose identifiers (topics, aliases, columns, AS names, GROUP BY / ORDER BY columns, JSON path members) contain every keyword of the generator's list as a proper prefix, suffix or infix of a longer word (fromage, xlast, re_scan_2, random letter case) or, rarely, as a whole word set off by '.'/'-' (x.from, last-2: the parser then reads the keyword inside the name as a clause word, so these statements and their case variants are watched for crashes only), half of them cut right after an identifier that follows FROM so that the statement / clause text ENDS in an identifier whose suffix spells a keyword (optionally followed by ';'), (5) texts in which a keyword token is replaced by a word that contains it, or which end in a dangling word glued to a one- or two-word keyword. Violation = Parse panics or the process dies. Metamorphic: 3 random ASCII-case variants of the keyword tokens of each generated statement (ASCII, with non-ASCII identifiers/literals, and with keyword-containing identifiers, which are never case-changed) must give the same error status and, when valid, a Query equal field by field (SelectColumn.Raw, the echoed input text, compared ASCII-case-insensitively). non-trivial = a statement that reached the select/explain/show/describe code with a keyword-case variant that differs from the base, or a hostile/noise text that got past statement dispatch",
 		"a panic recovered inside the child counts as a crash of Parse (server.go has no recover around it: see leg server)",
 		"keywords = the dialect's clause words and SQL function names (count/min/max/sum/avg/json_*); identifiers and literals are never case-changed",
 		"violation classes ending in _lowercase_length_shift are assigned by a counterfactual: the same text with every length-changing rune replaced by a same-length stable rune behaves correctly")
@@ -372,7 +401,7 @@ func TestVerifC35Parse(t *testing.T) {
 	if len(rs.Longer) == 0 || len(rs.Shorter) == 0 {
 		t.Fatalf("unicode tables yield no length-changing runes: %d/%d", len(rs.Longer), len(rs.Shorter))
 	}
-	jobs := c35Jobs(r, rs)
+	jobs := c35Jobs(t, r, rs)
 	replaying := false
 	if rp := verifkit.Replay(); rp != nil && rp["leg"] == "parse" {
 		// bin/check --replay <witness>: only the witness is evaluated (floors do not apply)
@@ -510,7 +539,7 @@ func TestVerifC35Parse(t *testing.T) {
 		}
 		nontrivial := reached
 		switch job.Kind {
-		case "meta_ascii", "meta_unicode":
+		case "meta_ascii", "meta_unicode", "meta_embed":
 			differs := false
 			for _, v := range job.Texts[1:] {
 				if !bytes.Equal(v, job.Texts[0]) {
@@ -520,7 +549,33 @@ func TestVerifC35Parse(t *testing.T) {
 			nontrivial = reached && differs
 			if valid && differs {
 				r.Count("valid_statements_with_case_variants_"+job.Kind, 1)
-				r.Seen("valid_statement_shapes", job.Sig)
+				if job.Kind != "meta_embed" {
+					r.Seen("valid_statement_shapes", job.Sig)
+				}
+			}
+		}
+		switch job.Kind {
+		case "meta_embed", "embed_punct":
+			{
+				kwid := false
+				for _, f := range job.Feats {
+					if strings.HasPrefix(f, "kwid_") {
+						r.Seen("embed_forms", strings.TrimPrefix(f, "kwid_"))
+						kwid = true
+					}
+					if strings.HasPrefix(f, "cut_after_") && reached {
+						r.Seen("embed_statement_ends_after", strings.TrimPrefix(f, "cut_after_"))
+					}
+				}
+				if job.EndKw != "" && reached {
+					kwid = true
+					r.Count("embed_statements_ending_in_keyword_suffix", 1)
+					r.Seen("embed_end_keywords", job.EndKw)
+					if valid {
+						r.Count("embed_valid_statements_ending_in_keyword_suffix", 1)
+					}
+				}
+				nontrivial = nontrivial && kwid
 			}
 		case "hostile":
 			if reached {
@@ -534,6 +589,8 @@ func TestVerifC35Parse(t *testing.T) {
 			}
 		case "noise":
 			r.Seen("noise_kinds", job.Sig)
+		case "embed_noise":
+			r.Seen("embed_noise_kinds", job.Sig)
 		}
 		for _, s := range job.Sites {
 			r.Seen("rune_sites", s)
@@ -555,6 +612,13 @@ func TestVerifC35Parse(t *testing.T) {
 	r.Floor("valid_statement_shapes", 40)
 	r.Floor("rune_sites", 20)
 	r.Floor("noise_kinds", 8)
+	r.Floor("valid_statements_with_case_variants_meta_embed", int64(len(jobs)/24))
+	r.Floor("embed_statements_ending_in_keyword_suffix", int64(len(jobs)/40))
+	r.Floor("embed_valid_statements_ending_in_keyword_suffix", int64(len(jobs)/80))
+	r.Floor("embed_end_keywords", int64(len(gen.SingleKeywords())))
+	r.Floor("embed_statement_ends_after", 5)
+	r.Floor("embed_forms", 4)
+	r.Floor("embed_noise_kinds", 4)
 }
 
 func c35ReplayJob(w map[string]any) (c35Job, bool) {
